@@ -1,6 +1,41 @@
 (* C10 - Logger hierarchy: lookup by name, inheritance at creation, isolation afterwards. *)
 Require Import Verif.Model.Base Verif.Model.Mode Verif.Model.Writers Verif.Model.Tree.
 Require Import Verif.Proofs.TreeP Verif.Proofs.TreeP2.
+Require Import Verif.Model.Decision Verif.Model.GoSem Verif.Model.TreeRef.
+Require Verif.Gen.Loggers Verif.Proofs.GenTreeP.
+
+(* ---- the source against the model: Entry.newChildLogger and the head of newentry as they are in /repo
+   now (translated on every run, Gen/Loggers.v).  A *Entry is a reference, s.items a nil-able map keyed by
+   the name, the arguments are gargs; the type assertion args[0].(string), the random name and newentry
+   itself are parameters. ---- *)
+
+(* which name is used and what happens: the first argument if it is a NON-EMPTY string, otherwise the
+   random name; the name is looked up in s.items - the receiver's DIRECT children - and an existing child is
+   returned; otherwise newentry(s, args...) is called with the receiver and the UNCHANGED arguments, stored
+   under that name and returned; a nil map is allocated first; no index or map write can panic *)
+Theorem C10_gen_new_child : forall as_string rnd mk s items args,
+  Loggers.new_child as_string rnd mk s items args = new_child_ref as_string rnd mk s items args.
+Proof. exact GenTreeP.gen_new_child. Qed.
+Print Assumptions C10_gen_new_child.
+
+(* freshness, explicitly: IF the random name is not the name of a child, a call without a name (or with an
+   empty name, or a non-string first argument) creates a NEW logger and registers it under the random name *)
+Theorem C10_gen_anonymous_is_new : forall rnd mk s items args,
+  lookupB items rnd = None ->
+  (match args with GStr (_ :: _) :: _ => False | _ => True end) ->
+  Loggers.new_child garg_string rnd mk s (Some items) args = Some (mk s args, Some (items ++ [(rnd, mk s args)])).
+Proof. exact GenTreeP.anon_child_is_new. Qed.
+Print Assumptions C10_gen_anonymous_is_new.
+
+(* the child starts with the receiver's format flags and level (a detached logger with JSON off, colour
+   on and the package level): the values newentry computes are those of the model's fresh_entry *)
+Theorem C10_gen_child_defaults : forall w p pe name,
+  nth_error (entries w) p = Some pe ->
+  Loggers.child_defaults true (useJSON (e_mode pe)) (useColor (e_mode pe)) (e_level pe) (deflevel w) =
+    (useJSON (e_mode (fresh_entry w (Some p) name)), useColor (e_mode (fresh_entry w (Some p) name)),
+     e_level (fresh_entry w (Some p) name)).
+Proof. exact GenTreeP.defaults_fresh_entry. Qed.
+Print Assumptions C10_gen_child_defaults.
 
 (* New(name) returns the existing direct child of that name and changes nothing ... *)
 Theorem C10_new_lookup : forall islw w p k opts j pe,
